@@ -39,7 +39,8 @@ var c18Magnitudes = []string{
 	"1e-46", "5e-324",
 }
 
-var c18Odd = []string{" 1 ", "0x10", "1_000", "+5", "-0", "1.0", "1e3", "1E3", "1e400", "-1e400", "NaN", "Inf", "-Inf", "+Inf", "infinity", "0b11", "0o17", "١", "1,000", "1.", ".5", "1e", "--1"}
+var c18Odd = []string{" 1 ", "0x10", "1_000", "+5", "-0", "1.0", "1e3", "1E3", "1e400", "-1e400", "NaN", "Inf", "-Inf", "+Inf", "infinity", "0b11", "0o17", "١", "1,000", "1.", ".5", "1e", "--1",
+	"010", "0123", "-0755", "00017777777777", "08", "007", "0010.50", "00", "-00"}
 
 // exact value of an odd string under the reading a user would expect, if any
 func c18OddValue(s string) (*big.Rat, string) {
@@ -68,6 +69,22 @@ func c18OddValue(s string) (*big.Rat, string) {
 	case "-1e400":
 		r, _ := new(big.Rat).SetString("-1e400")
 		return r, ""
+	case "010":
+		return big.NewRat(10, 1), ""
+	case "0123":
+		return big.NewRat(123, 1), ""
+	case "-0755":
+		return big.NewRat(-755, 1), ""
+	case "00017777777777":
+		return big.NewRat(17777777777, 1), ""
+	case "08":
+		return big.NewRat(8, 1), ""
+	case "007":
+		return big.NewRat(7, 1), ""
+	case "0010.50":
+		return big.NewRat(21, 2), ""
+	case "00", "-00":
+		return big.NewRat(0, 1), ""
 	case "NaN":
 		return nil, "nan"
 	case "Inf", "+Inf", "infinity":
